@@ -57,6 +57,16 @@ Theorem C41_ldap_search_exact_partial :
     ldap_known sch p f = false -> run_ldap sch p lim f = Ok r -> r = std_ldap sch p f.
 Proof. exact run_ldap_std. Qed.
 
+(* The shape of the substring deviation, for EVERY substring assertion (any number of parts, any
+   syntax, any entry): whatever the standard selects, the translated filter selects too — the
+   server's answer to a substring term is a superset (too many entries at a positive position,
+   too few under a NOT), never an unrelated set. *)
+Theorem C41_ldap_substring_superset :
+  forall sch p a ini anys fin depth lim g lim' e,
+    from_ldap sch p depth lim (LSub a ini anys fin) = Ok (g, lim') ->
+    ldap_sem sch p e (LSub a ini anys fin) = TT -> fmatch sch e g = true.
+Proof. exact ldap_substring_superset. Qed.
+
 (* ge / le / approx / extensible are refused, never silently reinterpreted *)
 Theorem C41_ldap_unsupported_rejected :
   forall sch p depth lim a v f,
